@@ -219,8 +219,8 @@ pub fn gen_graph(rng: &mut Rng, allow_nested: bool) -> Graph {
     };
     // now and then a large graph (long chains, wide fan-out): depth and size thresholds
     let large = rng.chance(1, 25);
-    let n = if large { rng.range(10, 36) } else { n };
-    let name_pool = if large { 12 } else { 4 };
+    let n = if large { if rng.chance(1, 4) { rng.range(60, 140) } else { rng.range(10, 36) } } else { n };
+    let name_pool = if large { 50 } else { 4 };
     // files: the root in /w, the others anywhere; base names f0..f3 repeat across directories
     let mut files: Vec<GFile> = vec![GFile { path: "/w/f0.td".into(), includes: vec![] }];
     let spread = rng.chance(1, 2); // half of the graphs stay in one directory
